@@ -4,6 +4,7 @@ package main
 func genAll() {
 	genHashes()
 	genLocks()
+	genCallback()
 	genDKGTable()
 	genTimeCalls()
 	genSecrets()
